@@ -436,6 +436,12 @@ pub fn install_panic_hook_quiet() {
 
 impl Session {
     pub fn new(cfg: &Cfg) -> Session {
+        // "@scratch" = a fresh scratch file per session
+        let mut cfg = cfg.clone();
+        if cfg.sqlite.as_deref() == Some("@scratch") {
+            cfg.sqlite = Some(scratch_path("db"));
+        }
+        let cfg = &cfg;
         let w = World::new();
         verif::install(w.clone());
         let engine = build_engine(cfg);
